@@ -165,6 +165,36 @@ fn check_instants_of_year(y: i64, cfg: &Cfg, log: &mut Log) {
   }
 }
 
+/// time view at the seams of civil year y: the first and last six days of the year (where the lunar year of a day
+/// can be the civil year, the one before, or — in the reform eras — the one after) and the two days around the
+/// lunar new year the library reports.  The oracle is the term list, as for every other instant; the library's lunar
+/// new year is only used to choose where to look.
+fn check_time_view_seams(y: i64, cfg: &Cfg, log: &mut Log) {
+  let c = cal();
+  let first = c.year_first(y);
+  let next = if y == 9999 { LAST + 1 } else { c.year_first(y + 1) };
+  let mut rng = Rng::new(mix(cfg.seed, y as u64 ^ 0x5EA8));
+  let mut days: Vec<i64> = Vec::with_capacity(16);
+  for k in 0..6 {
+    days.push(first + k);
+    days.push(next - 1 - k);
+  }
+  if let Ok(Some(lny)) = guard(|| dn_of(&tyme4rs::tyme::lunar::LunarDay::from_ymd(y as isize, 1, 1).get_solar_day())) {
+    days.push(lny - 1);
+    days.push(lny);
+  }
+  for n in days {
+    // 0001-01-01..06: the listed year-0 finding
+    if n < FIRST + 6 || n > LAST - 40 {
+      continue;
+    }
+    probe_instant(n * 86400 + 12 * 3600 + rng.range(0, 3599), "instant.year_seam", log);
+    let a = if rng.chance(1, 2) { n * 86400 + rng.range(0, 3599) } else { n * 86400 + 82800 + rng.range(0, 3599) };
+    probe_instant(a, "instant.year_seam", log);
+    log.nt(2);
+  }
+}
+
 /// sexagenary year Y: month list, pillars, first days, stepping
 fn check_year_object(y: i64, cfg: &Cfg, log: &mut Log) {
   let t = terms();
@@ -316,6 +346,9 @@ pub fn run(cfg: &Cfg) -> (Log, Meta) {
   };
   log.merge(par_range(years.len(), 2, |i, l| check_days_of_year(years[i], l)));
   log.merge(par_range(years.len(), 4, |i, l| check_instants_of_year(years[i], cfg, l)));
+  // every civil year in both tiers
+  log.merge(par_range(9998, 8, |i, l| check_time_view_seams(i as i64 + 1, cfg, l)));
+  log.floor("instant.year_seam", 250_000);
   let obj_years: Vec<i64> = match cfg.tier {
     Tier::Thorough => (1..=9998).collect(),
     Tier::Quick => (1..=9998).filter(|y| y % 10 == (cfg.seed % 10) as i64 || *y < 5).collect(),
